@@ -105,7 +105,7 @@ Theorem C10_inventory_tight :
 Proof. exact (conj covered_present (conj pass_present iteration_sites_count)). Qed.
 
 (* global mutable state / time / randomness / environment / addresses / threads / Debug formatting: exactly the justified list
-   (immutable statics, std::env::args in main, the extern declaration for the Windows console, {:?} of numbers and values) *)
+   (immutable statics, std::env::args_os in main, the extern declaration for the Windows console, {:?} of numbers and values) *)
 Theorem C10_no_ambient_state : c10_ambient = allowed_ambient.
 Proof. exact no_ambient_state. Qed.
 
